@@ -101,7 +101,8 @@ def r17_1(ctx):
             else:
                 ok = fn == "open" and mode in ("r", "rt")
                 ctx.check(ok, "R17.1", f.where(c), "plain GAF input is opened in text mode", key_of(f, f"plain-open:{norm(c)}"), call=norm(c))
-    ctx.require_count("R17.1", n, 6, "gaftools/", "open calls on a GAF path (3 openers x 2 branches)")
+    if not any(i.verdict == "violated" and i.rule == "R17.1" for i in ctx.instances):
+        ctx.require_count("R17.1", n, 6, "gaftools/", "open calls on a GAF path (3 openers x 2 branches)")
     # every other consumer of a GAF goes through the GAF class
     users = []
     for f in repo.all_funcs():
@@ -183,7 +184,7 @@ def r17_2(ctx):
                             state = "bytes" if tp else "str"
                         continue
                     # statement
-                    use = text_use(node, var)
+                    use = text_use(node, var, only_bytes_matter=(state == "bytes"))
                     dec = decodes(node, var)
                     if dec:
                         if rebinding(node, var):
@@ -241,8 +242,9 @@ def decodes(node, var):
     return any(isinstance(c, ast.Call) and isinstance(c.func, ast.Attribute) and c.func.attr == "decode" and mentions(c.func.value, var) for c in ast.walk(node))
 
 
-def text_use(node, var):
-    """A str-only operation applied directly to the line variable."""
+def text_use(node, var, only_bytes_matter=False):
+    """A str-only operation applied directly to the line variable.  With only_bytes_matter=True, printing /
+    writing the undecoded line also counts (print(bytes) writes the repr, a text handle rejects bytes)."""
     for c in ast.walk(node):
         if isinstance(c, ast.Call) and isinstance(c.func, ast.Attribute) and c.func.attr in TEXT_ONLY_METHODS:
             recv = c.func.value
@@ -259,6 +261,16 @@ def text_use(node, var):
                     # applies to both bytes and str; look at the next link through the outer walk
                     continue
                 if any(isinstance(a, ast.Constant) and isinstance(a.value, str) for a in c.args) or c.func.attr in ("format", "encode"):
+                    return True
+        if isinstance(c, ast.Call) and ((isinstance(c.func, ast.Name) and c.func.id == "print") or (isinstance(c.func, ast.Attribute) and c.func.attr == "write")):
+            for a in c.args:
+                root = a
+                dec = False
+                while isinstance(root, (ast.Call, ast.Attribute)):
+                    if isinstance(root, ast.Call) and isinstance(root.func, ast.Attribute) and root.func.attr == "decode":
+                        dec = True
+                    root = root.func.value if isinstance(root, ast.Call) else root.value
+                if isinstance(root, ast.Name) and root.id == var and not dec and only_bytes_matter:
                     return True
         if isinstance(c, ast.BinOp) and isinstance(c.op, (ast.Add, ast.Mod)):
             for a, b in ((c.left, c.right), (c.right, c.left)):
